@@ -8,7 +8,8 @@ SPEC  ClusterAPIMC: for every environment (follower, default factors, metrics, b
 GEN   call histories from TLC -simulate on ClusterAPISim (re-pins identical to / one option away from stored entries,
       updates, unpins of sharded content, typed pins, paths, metric changes, BlockGet faults appearing and
       disappearing) + a directed one-option sweep + directed sharded-unpin scripts with BlockGet fault injection
-      (cluster-DAG block failing / a shard block failing / none).
+      (cluster-DAG block failing / a shard block failing / none) and consensus fault injection (LogUnpin failing for
+      a shard in either position / the cluster-DAG / the meta pin / a data pin, LogPin failing) each with a retry.
 R     each history is executed on a real Cluster; after each call Cluster.Pins(), result and LogPin/LogUnpin are recorded.
 V     TLC (ClusterAPITrace) evaluates EffectOK (property) and StepOK (transcription) on every recorded tuple.
 """
@@ -37,9 +38,9 @@ BLOCKS = [["d1", ["s1", "s2"]]]
 MS_GOOD = {"p1": "v1", "p2": "v0", "p3": "v2"}
 
 
-def env(follower=False, d=(1, 2), strat="asc", ms=None, fail=()):
+def env(follower=False, d=(1, 2), strat="asc", ms=None, fail=(), logfail=()):
     return {"follower": follower, "dmin": d[0], "dmax": d[1], "strat": strat, "ms": dict(ms or MS_GOOD),
-            "paths": PATHS, "blocks": BLOCKS, "fail": list(fail)}
+            "paths": PATHS, "blocks": BLOCKS, "fail": list(fail), "logfail": [list(x) for x in logfail]}
 
 
 def sharded(cids=("m1", "d1", "s1", "s2")):
@@ -100,6 +101,38 @@ def directed(rng):
               {"op": "update", "from": "c2", "to": "c3", "o": PLAIN}, pin("c3", with_dim(PLAIN, "upd", "c2")),
               {"op": "pinpath", "path": "/ipfs/ok3", "o": PLAIN}, {"op": "unpinpath", "path": "/ipns/okm"}]
     return out, fsteps
+
+
+def logfault_scripts():
+    """Consensus faults: LogUnpin failing for a shard in either position / the cluster-DAG / the meta pin / a data pin,
+    LogPin failing; each followed by a retry once the fault is gone (which must finish the removal / store the pin)."""
+    out = []
+    other = {"cid": "c2", "type": "data", "mode": "rec", "depth": -1, "rmin": 1, "rmax": 2, "allocs": ["p2", "p1"],
+             "name": "n1", "exp": "f1", "meta": [["a", "x"]], "orig": [], "ua": [], "upd": "", "ref": ""}
+    um, up = {"op": "unpin", "cid": "m1"}, {"op": "unpinpath", "path": "/ipns/okm"}
+
+    def lf(*f):
+        return {"op": "logfail", "logfail": [list(x) for x in f]}
+    for first in (um, up):
+        for c in ("s1", "s2", "d1", "m1"):
+            # fault present from the start; retry with the fault still there; retry without
+            out.append({"src": "logfault", "env": env(logfail=[("unpin", c)]), "pre": sharded() + [other],
+                        "steps": [first, um, lf(), first, um]})
+            # fault appears later, a different one replaces it, then none
+            out.append({"src": "logfault", "env": env(), "pre": sharded() + [other],
+                        "steps": [lf(("unpin", c)), first, lf(("unpin", "s1" if c != "s1" else "s2")), um, lf(), um]})
+        out.append({"src": "logfault", "env": env(logfail=[("unpin", "s1"), ("unpin", "s2")]), "pre": sharded() + [other],
+                    "steps": [first, lf(("unpin", "s1")), first, lf(), first]})
+    # data pins: LogUnpin / LogPin failing, then retried
+    out.append({"src": "logfault", "env": env(logfail=[("unpin", "c2")]), "pre": sharded() + [other],
+                "steps": [{"op": "unpin", "cid": "c2"}, um, lf(), {"op": "unpin", "cid": "c2"}]})
+    for d in ((1, 2), (-1, -1)):
+        out.append({"src": "logfault", "env": env(d=d, logfail=[("pin", "c1"), ("pin", "c3")]), "pre": [other],
+                    "steps": [pin("c1", PLAIN), pin("c3", with_dim(PLAIN, "upd", "c2")),
+                              {"op": "update", "from": "c2", "to": "c3", "o": PLAIN}, pin("c2", with_dim(PLAIN, "name", "n2")),
+                              lf(), pin("c1", PLAIN), lf(("pin", "c1")), pin("c1", with_dim(PLAIN, "name", "n2")), pin("c1", PLAIN),
+                              lf(), pin("c1", with_dim(PLAIN, "name", "n2"))]})
+    return out
 
 
 def witness_script(out):
@@ -221,6 +254,7 @@ def generate(ctx):
     sweep, fsteps = directed(rng)
     scripts += sweep
     scripts += fault_scripts()
+    scripts += logfault_scripts()
     # follower scripts on a loaded pinset (taken from a simulated history's initial context when there is one)
     ctxs = [s["pre"] for s in scripts if s["src"] == "sim" and len(s["pre"]) > 1]
     if ctxs:
@@ -243,6 +277,9 @@ def run(ctx):
         "differs only in user allocations may keep or re-compute the allocations",
         "PinUpdate onto an already pinned target is judged only by the copy semantics (the statement speaks of 'the new CID')",
         "a refusal that leaves the pinset unchanged is never a violation (unjustified refusals show as SPEC-DRIFT)",
+        "while the consensus component fails operations, a FAILED unpin of sharded content may have removed some shard / "
+        "cluster-DAG entries, but never the meta entry while others of its group remain, and never other CIDs; without "
+        "injected consensus faults every failed call must leave the pinset unchanged",
         "metrics: peers are healthy with distinct numeric values or absent; allocation details are C03's",
     ]
     cfg = "ClusterAPIMC_quick.cfg" if ctx.quick() else "ClusterAPIMC_thorough.cfg"
